@@ -65,6 +65,11 @@ CLAIMED = {
              "Tie: nine translator facts on the real filters (query filters of sync_detect, run_if gates in both plugins, AssetId::Uuid let-else in all ten reaction/snapshot functions, registration and exclusion checks of the snapshot); every message seen in any receive tap of sessions with random per-peer registration subsets, switches, excludes, index/uuid ids and a late joiner is attributed to its originator and judged by the model's predicate on that peer's own configuration.",
         note="Trusted: Lean kernel + standard axioms; the attribution of a received message to its originator (sender id hook, host relays recognised by content) and the 4-frame window in which the originator's configuration is looked up; exclusion/registration are evaluated when the change is detected (a change queued before an exclusion is added still leaves).",
         technique="Lean 4 proof (decision-logic theorems over the emission sites) + translator facts + per-message attribution oracle", ref="§7 C04"),
+    "C01": dict(
+        text="Machine-checked proof on the entity slice (one uuid; host + a list of clients of any length; actions = entity_created, entity_removed, poll+flush, application mark/despawn, clients leaving): for an entity marked on the host and for one marked on any client (relayed client -> host -> other clients), for every interleaving, no peer ever holds two live replicas and at quiescence the host and every connected client hold exactly one. "
+             "Partial for despawns: the step laws that make repeated/crossing deletes and duplicate spawns harmless are proved; the unbounded convergence theorem for histories with despawns from arbitrary peers is not — those histories are decided on every run by projecting each uuid of real sessions (spawns/despawns from random peers, several per frame, marks before the connection, clients leaving) onto the slice (count and tracker entry predicted after every frame) and by the oracle (no duplicate uuid ever, equal uuid sets on all connected peers at quiescence, tracker maps consistent). New joins are C03.",
+        note="Trusted: as for C02 (scheduler/Commands/renet modelled, projection glue); poll and the end-of-frame flush are one model action, justified by the dumped schedule (poll follows the only sync point) and checked by the correspondence.",
+        technique="Lean 4 proof (pipeline invariants for spawn epochs, any N, all interleavings) + per-uuid trace correspondence + oracle", ref="§7 C01"),
 }
 PENDING_REASON = "not claimed yet: machinery for this property is still being built (see DESIGN.md §10 build order); no check is registered until its theorems and tie run"
 
